@@ -18,6 +18,8 @@ FLAGS = {
     'fast': ['g++', '-std=gnu++17', '-O2', '-g', GUARD],
     'tsan': ['clang++', '-std=gnu++17', '-O1', '-g', '-fno-omit-frame-pointer', '-fsanitize=thread', GUARD],
     'cov': ['g++', '-std=gnu++17', '-O0', '-g', '--coverage', GUARD],
+    'ivz': ['clang++', '-std=gnu++17', '-O1', '-g', '-ftrivial-auto-var-init=zero', '-enable-trivial-auto-var-init-zero-knowing-it-will-be-removed-from-clang', GUARD],
+    'ivp': ['clang++', '-std=gnu++17', '-O1', '-g', '-ftrivial-auto-var-init=pattern', GUARD],
 }
 FFLAGS = ['-std=legacy', '-ffixed-line-length-132', '-fd-lines-as-comments', '-fdefault-real-8', '-fdefault-double-8',
           '-fno-automatic', '-O1', '-g', '-w']
